@@ -263,7 +263,7 @@ func (f *failingSource) Read(p []byte) (int, error) {
 }
 
 const c07FailRule = "case = (content, chunker, width, a source reader that fails with a non-EOF error after delivering a drawn number of bytes - aimed at chunk and level boundaries incl. exactly at the end - in drawn fragment sizes, the error arriving with the last bytes or on the next call, error value from the fault palette incl. values wrapping io.EOF); " +
-	"oracle = differential: the reference importer fed the same failing source reports an error, so the builder must report one too and return no link (a link would name a file the source never delivered); every case non-trivial; distinct by (chunker class, w, position class, together?)"
+	"oracle = differential: where the reference importer fed the same failing source reports an error, the builder must report one too and return no link (a link would name a file the source never delivered); where the reference takes the failure for the end of the input (errors wrapping io.ErrUnexpectedEOF), the builder must return the same root; every case non-trivial; distinct by (chunker class, w, position class, together?)"
 
 // TestC07_P_FailingSource extends the content domain of C07 to sources that break: builder and reference must agree that
 // there is no file.
@@ -301,6 +301,7 @@ func TestC07_P_FailingSource(t *testing.T) {
 		src.together, refSrc.together = together, together
 		// reference
 		var refErr error
+		var refRoot cid.Cid
 		func() {
 			spl, err := chunk.FromString(refSrc, ck.Name)
 			if err != nil {
@@ -311,14 +312,22 @@ func TestC07_P_FailingSource(t *testing.T) {
 			if err != nil {
 				t.Fatal(err)
 			}
-			_, refErr = balanced.Layout(db)
+			nd, e := balanced.Layout(db)
+			refErr = e
+			if e == nil {
+				refRoot = nd.Cid()
+			}
 		}()
 		var got cid.Cid
 		var err error
 		must(t, "BuildUnixFSFile", func() { got, _, err = buildFileR(NewStore().LinkSystem(), src, ck.Name, w) })
 		if refErr == nil {
-			// (not observed: the reference reads to the end of its source) - nothing to compare against
-			ev.Case("reference-did-not-fail", false, "reference-did-not-fail")
+			// the reference took the failure for the end of the input (the splitter does that for errors wrapping
+			// io.ErrUnexpectedEOF): then the builder has to build the same file from what was delivered (F17)
+			if err != nil || got != refRoot {
+				t.Fatalf("C07: source failing (%s, with the last bytes: %v) after %d of %d bytes, chunker %q, w=%d: the reference importer takes that for the end of the input and returns %s; the builder returned %s, err %v", faultKinds[kind].Name, together, failAfter, len(data), ck.Name, w, refRoot, got, err)
+			}
+			ev.Case(fmt.Sprintf("reference-took-it-for-the-end %s %s", ck.Class, posClass), true, "reference-took-it-for-the-end", "pos:"+posClass)
 			return
 		}
 		if err == nil || got.Defined() {
@@ -327,4 +336,27 @@ func TestC07_P_FailingSource(t *testing.T) {
 		ev.Case(fmt.Sprintf("%s w=%d %s together=%v %s", ck.Class, w, posClass, together, faultKinds[kind].Name), true, "chunker:"+ck.Class, "pos:"+posClass, "fault:"+faultKinds[kind].Name)
 		ev.Sample(map[string]any{"len": len(data), "chunker": ck.Name, "w": w, "fail_after": failAfter, "together": together, "fault": faultKinds[kind].Name})
 	})
+}
+
+
+// F17 (fixed): a source cut off exactly at a chunk boundary with an error wrapping io.ErrUnexpectedEOF.
+func TestC07_R_F17_SourceCutAtChunkBoundary(t *testing.T) {
+	for _, n := range []int{0, 8, 16, 32, 33, 64} {
+		for _, w := range []int{2, 3, 174} {
+			data := lcgBytes(n, 1, 0)
+			mk := func() io.Reader {
+				return &failingSource{data: data, frags: []int{5}, failAfter: n, err: fmt.Errorf("truncated stream: %w", io.ErrUnexpectedEOF)}
+			}
+			got, _, err := buildFileR(NewStore().LinkSystem(), mk(), "size-8", w)
+			spl, _ := chunk.FromString(mk(), "size-8")
+			db, _ := (&helpers.DagBuilderParams{Maxlinks: w, RawLeaves: true, Dagserv: storeDAG{NewStore()}, CidBuilder: v1Prefix()}).New(spl)
+			nd, rerr := balanced.Layout(db)
+			if rerr != nil {
+				t.Fatalf("harness: reference failed: %v", rerr)
+			}
+			if err != nil || got != nd.Cid() {
+				t.Fatalf("C07 F17: %d bytes then an error wrapping io.ErrUnexpectedEOF, size-8, w=%d: builder %s (err %v), reference %s", n, w, got, err, nd.Cid())
+			}
+		}
+	}
 }
